@@ -395,7 +395,9 @@ func (h *hist) step(i int, o op) bool {
 		err, pnc = safe(func() error { return node.ApplicationUnload(app.Name) })
 	case "death":
 		if victim == nil {
-			r.incon = pre + "victim not found"
+			if len(r.viols) == 0 {
+				r.incon = pre + "victim not found"
+			}
 			return false
 		}
 		_, pnc = killMember(victim.I.PID, o.How)
@@ -418,7 +420,9 @@ func (h *hist) step(i int, o op) bool {
 	}
 	if hung != "" {
 		h.wedged = true
-		r.incon = pre + "watchdog: the call did not return within 15s"
+		if len(r.viols) == 0 {
+			r.incon = pre + "watchdog: the call did not return within 15s"
+		}
 		return false
 	}
 	if pnc != nil {
@@ -430,7 +434,11 @@ func (h *hist) step(i int, o op) bool {
 		return false
 	}
 	if !quiesce(h.apps...) {
-		r.incon = pre + "watchdog: no quiescence"
+		// the steps judged so far were judged at quiescence and stand; this one is not judged
+		if len(r.viols) == 0 {
+			r.incon = pre + "watchdog: no quiescence"
+		}
+		h.wedged = true
 		return false
 	}
 
